@@ -1714,15 +1714,6 @@ class Parallel(Logger):
             # the rest of the function does not call `_terminate_and_reset`
             # in finally.
             if dispatch_thread_id != threading.get_ident():
-                warnings.warn(
-                    "A generator produced by joblib.Parallel has been "
-                    "gc'ed in an unexpected thread. This behavior should "
-                    "not cause major -issues but to make sure, please "
-                    "report this warning and your use case at "
-                    "https://github.com/joblib/joblib/issues so it can "
-                    "be investigated."
-                )
-
                 detach_generator_exit = True
                 # Stop dispatching (and consuming the input) right away: the
                 # thread below may only run some time after the generator
@@ -1743,6 +1734,16 @@ class Parallel(Logger):
                             _parallel._running = False
 
                 _GeneratorExitThread(name="GeneratorExitThread").start()
+                # Warn last: when warnings are turned into errors, this
+                # raises, and the run must have been aborted all the same.
+                warnings.warn(
+                    "A generator produced by joblib.Parallel has been "
+                    "gc'ed in an unexpected thread. This behavior should "
+                    "not cause major -issues but to make sure, please "
+                    "report this warning and your use case at "
+                    "https://github.com/joblib/joblib/issues so it can "
+                    "be investigated."
+                )
                 return
 
             # Otherwise, we are in the thread that started the dispatch: we can
